@@ -21,8 +21,10 @@ import (
 	"math"
 	"os"
 	"runtime"
+	"runtime/debug"
 	"sort"
 	"strings"
+	"time"
 
 	"github.com/feichai0017/NoKV/kv"
 	"github.com/feichai0017/NoKV/utils"
@@ -369,14 +371,71 @@ func searchRel(p *probe, m *model, lo int) string {
 	return rel
 }
 
-// compareIndex checks every observation the property talks about. It returns the first mismatch.
-func compareIndex(idx index, m *model, probes []probe) *mismatch {
+// inputClass: does the set of internal keys (contents, optionally plus a probe) contain a
+// zero-padded twin (one key equals another followed by zero bytes) or two keys of one column
+// family whose user keys are prefix-related?
+func inputClass(ents []ment, probe []byte) string {
+	keys := make([][]byte, 0, len(ents)+1)
+	for i := range ents {
+		keys = append(keys, ents[i].kb)
+	}
+	if probe != nil {
+		keys = append(keys, probe)
+	}
+	class := "plain"
+	for i := range keys {
+		for j := i + 1; j < len(keys); j++ {
+			if bytes.Equal(keys[i], keys[j]) {
+				continue
+			}
+			if zeroPadEqual(keys[i], keys[j]) {
+				return "zero-padded-twin"
+			}
+			if relation(keys[i], keys[j]) == "user-key-prefix" {
+				class = "user-key-prefix"
+			}
+		}
+	}
+	return class
+}
+
+// compareIndex checks every observation the property talks about. It returns one mismatch per
+// distinct (operation, kind, relation) class, in order of discovery (nil = all agree), so that
+// a known failure class does not hide a different one in the same case.
+func compareIndex(idx index, m *model, probes []probe) []*mismatch {
 	limit := len(m.ents) + 2
 	fwd := idx.NewIterator(&utils.Options{IsAsc: true})
 	rev := idx.NewIterator(&utils.Options{IsAsc: false})
 	defer fwd.Close()
 	defer rev.Close()
-	fail := func(op string, p *probe, it utils.Iterator, redo func(), want []ment) *mismatch {
+	var out []*mismatch
+	seen := map[string]bool{}
+	contentClass := ""
+	add := func(op, kind, rel string, pb []byte, mk func() *mismatch) {
+		// Signatures classify the failing INPUT: contents (plus probe) that contain a
+		// zero-padded twin or prefix-related user keys form their own classes; otherwise the
+		// relation of the keys at the point of divergence is used.
+		if contentClass == "" {
+			contentClass = inputClass(m.ents, nil)
+		}
+		if c := contentClass; c != "plain" {
+			rel = c
+		}
+		if pb != nil && rel != "zero-padded-twin" {
+			if c := inputClass(m.ents, pb); c != "plain" {
+				rel = c
+			}
+		}
+		k := op + " " + kind + " " + rel
+		if seen[k] || len(out) >= 12 {
+			return
+		}
+		seen[k] = true
+		mm := mk()
+		mm.rel = rel
+		out = append(out, mm)
+	}
+	fail := func(op string, p *probe, it utils.Iterator, redo func(), want []ment) {
 		redo()
 		got := drain(it, limit)
 		ps := "-"
@@ -385,15 +444,17 @@ func compareIndex(idx index, m *model, probes []probe) *mismatch {
 			ps, pb = p.k.String(), p.kb
 		}
 		kind, rel := classify(got, want, pb)
-		return &mismatch{op: op, kind: kind, rel: rel, probe: ps, got: describeItems(got), want: describeEnts(want)}
+		add(op, kind, rel, pb, func() *mismatch {
+			return &mismatch{op: op, kind: kind, rel: rel, probe: ps, got: describeItems(got), want: describeEnts(want)}
+		})
 	}
 	fwd.Rewind()
 	if !matches(fwd, m.ents, false) {
-		return fail("scan-fwd", nil, fwd, fwd.Rewind, m.ents)
+		fail("scan-fwd", nil, fwd, fwd.Rewind, m.ents)
 	}
 	rev.Rewind()
 	if !matches(rev, m.ents, true) {
-		return fail("scan-rev", nil, rev, rev.Rewind, reversed(m.ents))
+		fail("scan-rev", nil, rev, rev.Rewind, reversed(m.ents))
 	}
 	for i := range probes {
 		p := &probes[i]
@@ -407,26 +468,30 @@ func compareIndex(idx index, m *model, probes []probe) *mismatch {
 		vs := idx.Search(p.kb)
 		got := val{string(vs.Value), vs.Meta, vs.ExpiresAt}
 		if want == nil && got != (val{}) {
-			return &mismatch{op: "search", kind: "phantom", rel: searchRel(p, m, lo), probe: p.k.String(), got: got.String(), want: "(nothing)"}
+			add("search", "phantom", searchRel(p, m, lo), p.kb, func() *mismatch {
+				return &mismatch{op: "search", kind: "phantom", rel: searchRel(p, m, lo), probe: p.k.String(), got: got.String(), want: "(nothing)"}
+			})
 		}
 		if want != nil && got != want.v {
 			kind := "wrong-version"
 			if got == (val{}) {
 				kind = "miss"
 			}
-			return &mismatch{op: "search", kind: kind, rel: searchRel(p, m, lo), probe: p.k.String(), got: got.String(), want: want.k.String() + "=" + want.v.String()}
+			add("search", kind, searchRel(p, m, lo), p.kb, func() *mismatch {
+				return &mismatch{op: "search", kind: kind, rel: searchRel(p, m, lo), probe: p.k.String(), got: got.String(), want: want.k.String() + "=" + want.v.String()}
+			})
 		}
 		fwd.Seek(p.kb)
 		if !matches(fwd, m.ents[lo:], false) {
-			return fail("seek-fwd", p, fwd, func() { fwd.Seek(p.kb) }, m.ents[lo:])
+			fail("seek-fwd", p, fwd, func() { fwd.Seek(p.kb) }, m.ents[lo:])
 		}
 		up := m.upper(p.k)
 		rev.Seek(p.kb)
 		if !matches(rev, m.ents[:up+1], true) {
-			return fail("seek-rev", p, rev, func() { rev.Seek(p.kb) }, reversed(m.ents[:up+1]))
+			fail("seek-rev", p, rev, func() { rev.Seek(p.kb) }, reversed(m.ents[:up+1]))
 		}
 	}
-	return nil
+	return out
 }
 
 // ---------------------------------------------------------------------------------
@@ -489,8 +554,10 @@ func (c seqCase) String(u *universe) string {
 
 var curHeight int // height the skiplist must use for the insert in progress (sequential part)
 
-// runSeq executes one sequence on both engines; returns signature+description of the first violation.
-func runSeq(u *universe, c seqCase) (sig, desc string) {
+type finding struct{ sig, desc string }
+
+// runSeq executes one sequence on both engines; returns every distinct violation class it shows.
+func runSeq(u *universe, c seqCase) (out []finding) {
 	var m model
 	vals := make([]val, len(c.Keys))
 	for i, k := range c.Keys {
@@ -498,14 +565,11 @@ func runSeq(u *universe, c seqCase) (sig, desc string) {
 		m.put(u.keys[k], vals[i])
 	}
 	for _, eng := range engines {
-		s, d := func() (sig, desc string) {
+		func() {
 			defer func() {
 				if r := recover(); r != nil {
-					msg := fmt.Sprint(r)
-					if i := strings.IndexByte(msg, '\n'); i > 0 {
-						msg = msg[:i]
-					}
-					sig, desc = eng+" panic: "+msg, fmt.Sprintf("%s panicked: %v", eng, r)
+					msg := panicSig(r)
+					out = append(out, finding{"seq: " + eng + " panic: " + msg, c.String(u) + "\n  " + fmt.Sprintf("%s panicked: %v", eng, r)})
 				}
 			}()
 			idx := newIndex(eng)
@@ -516,18 +580,22 @@ func runSeq(u *universe, c seqCase) (sig, desc string) {
 				}
 				idx.Add(vals[i].entry(u.keys[k]))
 			}
-			mm := compareIndex(idx, &m, u.probes)
+			mms := compareIndex(idx, &m, u.probes)
 			utils.VerifReleaseIndex(idx)
-			if mm != nil {
-				return mm.sig(eng), mm.desc(eng)
+			for _, mm := range mms {
+				out = append(out, finding{"seq: " + mm.sig(eng), c.String(u) + "\n  " + mm.desc(eng)})
 			}
-			return "", ""
 		}()
-		if s != "" {
-			return "seq: " + s, c.String(u) + "\n  " + d
-		}
 	}
-	return "", ""
+	return out
+}
+
+func sigsOf(fs []finding) string {
+	var s []string
+	for _, f := range fs {
+		s = append(s, f.sig)
+	}
+	return strings.Join(s, " | ")
 }
 
 func replayJSON(c seqCase) string {
@@ -578,14 +646,17 @@ func seqPart(r *vr.Run, sh vr.ShardInfo, p *vr.Partial) {
 			return
 		}
 		p.Add("seq_cases", 1)
-		sig, desc := runSeq(u, c)
-		if sig != "" {
+		fs := runSeq(u, c)
+		if len(fs) > 0 {
 			// fresh re-run must fail identically
-			if s2, _ := runSeq(u, c); s2 != sig {
-				vr.Fatalf("sequential case %s not reproducible: %q then %q", c.String(u), sig, s2)
+			if s1, s2 := sigsOf(fs), sigsOf(runSeq(u, c)); s2 != s1 {
+				vr.Fatalf("sequential case %s not reproducible: %q then %q", c.String(u), s1, s2)
 			}
 			c.Keys = append([]int{}, c.Keys...)
-			p.Viol(sig, desc, replayJSON(c))
+			for _, f := range fs {
+				p.Viol(f.sig, f.desc, replayJSON(c))
+			}
+			p.Add("seq_cases_failing", 1)
 			return
 		}
 		distinct := map[int]bool{}
@@ -783,6 +854,7 @@ func setupFor(j job, p *vr.Partial) func() *schedmc.Exec {
 				lastOf[t][k] = v
 			}
 			bodies = append(bodies, func() {
+				debug.SetPanicOnFault(true) // a corrupted structure must fail this schedule, not the process
 				for i, k := range w {
 					idx.Add(vals[i].entry(k))
 					completed[k] = true
@@ -807,6 +879,7 @@ func setupFor(j job, p *vr.Partial) func() *schedmc.Exec {
 		ro := &readerObs{}
 		if sc.reader != "" {
 			bodies = append(bodies, func() {
+				debug.SetPanicOnFault(true)
 				ro.started = true
 				ro.required = map[ikey]bool{}
 				for k := range completed {
@@ -835,15 +908,31 @@ func setupFor(j job, p *vr.Partial) func() *schedmc.Exec {
 			finished[len(sc.writers)] = true
 		}
 		var outcome string
+		steps := 0
 		return &schedmc.Exec{
 			Threads: bodies,
+			// a correct execution of these scenarios takes a few hundred scheduling steps
+			Monitor: func() (string, string) {
+				if steps++; steps > 6000 {
+					return "operation-does-not-terminate", fmt.Sprintf("the threads are still running after %d scheduling steps (an Add / iteration loops)", steps)
+				}
+				return "", ""
+			},
 			Final: func(res vsched.Result) (string, string) {
 				for t, f := range finished {
 					if !f {
 						return "thread-not-finished", fmt.Sprintf("thread %d did not finish", t)
 					}
 				}
+				// Reading the quiescent index back takes microseconds. A structure corrupted into a
+				// cycle can make the real Search/Next spin forever outside any scheduler: that is
+				// reported as a harness error (exit 2), never decided by the clock.
+				wd := time.AfterFunc(5*time.Minute, func() {
+					fmt.Fprintf(os.Stderr, "HARNESS-ERROR: %s: reading the index back after a schedule does not terminate (corrupted structure?)\n", j.name())
+					os.Exit(2)
+				})
 				sig, desc, out := finalOracle(idx, j, p, all, allowed, written, ro)
+				wd.Stop()
 				outcome = out
 				return sig, desc
 			},
@@ -995,8 +1084,32 @@ func seqScenarioReplay(name string) string {
 	return fmt.Sprintf(`{"Part":"seq-scenario","Harness":%q}`, name)
 }
 
+// panicSig: first line of a panic message with non-printable bytes (raw keys) masked.
+func panicSig(r any) string {
+	msg := fmt.Sprint(r)
+	if i := strings.IndexByte(msg, '\n'); i > 0 {
+		msg = msg[:i]
+	}
+	b := []byte(msg)
+	for i, c := range b {
+		if c < 0x20 || c > 0x7e {
+			b[i] = '.'
+		}
+	}
+	if len(b) > 100 {
+		b = b[:100]
+	}
+	return string(b)
+}
+
 func finalOracle(idx index, j job, p *vr.Partial, all map[ikey]bool, allowed, written map[ikey][]val, ro *readerObs) (sig, desc, outcome string) {
 	sc := j.sc
+	defer func() {
+		// the index is quiescent here: a panic while reading it back is a broken structure
+		if r := recover(); r != nil {
+			sig, desc, outcome = "final-read-panics: "+panicSig(r), fmt.Sprintf("after all threads finished, reading the index back panicked: %v", r), ""
+		}
+	}()
 	// 1. every inserted key is present with one of the values written to it
 	var m model
 	var keys []ikey
@@ -1027,17 +1140,21 @@ func finalOracle(idx index, j job, p *vr.Partial, all map[ikey]bool, allowed, wr
 	}
 	modelOrder := true
 	probes := concProbes(keys)
-	if mm := compareIndex(idx, &m, probes); mm != nil {
+	if mms := compareIndex(idx, &m, probes); len(mms) > 0 {
 		// Is this the engine's sequential behaviour for these contents (then it is reported
 		// with the signature of the sequential part and the schedule search goes on), or did
 		// the interleaving cause it?
 		ref, panicked := sequentialBuild(j.engine, sc, &m)
-		var mm2 *mismatch
+		refSigs := map[string]*mismatch{}
 		if panicked == nil {
-			mm2 = compareIndex(ref, &m, probes)
+			for _, mm2 := range compareIndex(ref, &m, probes) {
+				refSigs[mm2.sig(j.engine)] = mm2
+			}
 		}
-		if mm2 == nil || mm2.sig(j.engine) != mm.sig(j.engine) {
-			return "final " + mm.op + " " + mm.kind + " rel=" + mm.rel, mm.desc("after all threads finished:"), ""
+		for _, mm := range mms {
+			if refSigs[mm.sig(j.engine)] == nil {
+				return "final " + mm.op + " " + mm.kind + " rel=" + mm.rel, mm.desc("after all threads finished:"), ""
+			}
 		}
 		limit := len(keys) + 2
 		refFwd := fullScan(ref, true, limit)
@@ -1045,7 +1162,9 @@ func finalOracle(idx index, j job, p *vr.Partial, all map[ikey]bool, allowed, wr
 			return "final-scan-differs-from-sequential-build", fmt.Sprintf("after all threads finished the index scans as [%s], the same contents inserted sequentially scan as [%s]", describeItems(fullScan(idx, true, limit)), describeItems(refFwd)), ""
 		}
 		utils.VerifReleaseIndex(ref)
-		p.Viol("seq: "+mm.sig(j.engine), "contents of scenario "+j.name()+" inserted sequentially\n  "+mm2.desc(j.engine), seqScenarioReplay(j.name()))
+		for _, mm := range mms {
+			p.Viol("seq: "+mm.sig(j.engine), "contents of scenario "+j.name()+" inserted sequentially\n  "+refSigs[mm.sig(j.engine)].desc(j.engine), seqScenarioReplay(j.name()))
+		}
 		p.Add("conc_schedules_with_sequential_defect", 1)
 		// the reader is judged against the engine's own quiescent order
 		modelOrder = false
@@ -1089,7 +1208,7 @@ func finalOracle(idx index, j job, p *vr.Partial, all map[ikey]bool, allowed, wr
 }
 
 // seqScenario replays a "seq-scenario" finding: the scenario's final contents inserted sequentially.
-func seqScenario(j job) (sig, desc string) {
+func seqScenario(j job) (out []finding) {
 	setHeights(j)
 	defer func() { heightByKey = nil }()
 	var m model
@@ -1107,12 +1226,12 @@ func seqScenario(j job) (sig, desc string) {
 	}
 	ref, panicked := sequentialBuild(j.engine, j.sc, &m)
 	if panicked != nil {
-		return "seq: " + j.engine + " panic", fmt.Sprint(panicked)
+		return []finding{{"seq: " + j.engine + " panic", fmt.Sprint(panicked)}}
 	}
-	if mm := compareIndex(ref, &m, concProbes(keys)); mm != nil {
-		return "seq: " + mm.sig(j.engine), mm.desc(j.engine)
+	for _, mm := range compareIndex(ref, &m, concProbes(keys)) {
+		out = append(out, finding{"seq: " + mm.sig(j.engine), mm.desc(j.engine)})
 	}
-	return "", ""
+	return out
 }
 
 func setHeights(j job) {
@@ -1132,6 +1251,9 @@ func setHeights(j job) {
 
 func concPart(r *vr.Run, sh vr.ShardInfo, p *vr.Partial) {
 	for _, j := range jobs(r.Thorough()) {
+		if f := os.Getenv("C07_JOBS"); f != "" && !strings.Contains(j.name(), f) { // development aid
+			continue
+		}
 		if r.Expired() {
 			p.TimedOut = true
 			return
@@ -1170,19 +1292,17 @@ func main() {
 				vr.Fatalf("unknown universe %q", rp.Universe)
 			}
 			c := seqCase{"seq", rp.Universe, rp.Keys, rp.Heights}
-			sig, desc := runSeq(u, c)
 			fmt.Println("replay:", c.String(u))
-			if sig != "" {
-				r.Violation(sig, desc, rp)
+			for _, f := range runSeq(u, c) {
+				r.Violation(f.sig, f.desc, rp)
 			}
 			r.Finish(vr.Coverage{Level: "model_checking", States: 1, Transitions: 1, Evaluations: 1, Distinct: 2, Samples: []any{c.String(u)}, Rule: "replay"})
 		}
 		for _, j := range jobs(true) {
 			if j.name() == rp.Harness && rp.Part == "seq-scenario" {
-				sig, desc := seqScenario(j)
 				fmt.Println("replay: contents of", j.name(), "inserted sequentially")
-				if sig != "" {
-					r.Violation(sig, desc, rp)
+				for _, f := range seqScenario(j) {
+					r.Violation(f.sig, f.desc, rp)
 				}
 				r.Finish(vr.Coverage{Level: "model_checking", States: 1, Transitions: 1, Evaluations: 1, Distinct: 2, Samples: []any{j.name()}, Rule: "replay"})
 			}
@@ -1204,15 +1324,16 @@ func main() {
 	}
 	total := r.RunSharded(vr.Workers(), func(sh vr.ShardInfo, p *vr.Partial) {
 		runtime.GOMAXPROCS(1)
+		debug.SetPanicOnFault(true)
 		// every index instance owns a fresh zeroed 1 MiB arena chunk: recycle the chunks of
 		// released instances (see overlay utils/zz_verif_memindex.go)
 		utils.VerifRecycleChunks = true
 		only := os.Getenv("C07_ONLY") // development aid: run one part only
-		if only != "seq" {
-			concPart(r, sh, p)
-		}
 		if only != "conc" {
 			seqPart(r, sh, p)
+		}
+		if only != "seq" {
+			concPart(r, sh, p)
 		}
 	})
 	perJob := map[string]int64{}
